@@ -44,6 +44,9 @@ type caseOut struct {
 	Steps int            `json:"steps"`
 	Hang  bool           `json:"hang"`
 	Stats map[string]int `json:"stats"`
+	// fs mode: a second case, the session-level history for the composed model, and its observation
+	Composed    string `json:"composed,omitempty"`
+	ComposedObs string `json:"composed_obs,omitempty"`
 }
 type failure2 struct{ Key, What string }
 
@@ -468,6 +471,7 @@ func runCase(seed uint64, idx int, prop string, thorough bool) caseOut {
 		lab += "/" + r.faultKind
 	}
 	out.Label = lab
+	out.Composed, out.ComposedObs = r.composed, r.composedObs
 	out.NT = len(r.steps) >= 4
 	for _, f := range r.fails {
 		out.Fails = append(out.Fails, failure2{f.key, f.what})
@@ -590,6 +594,9 @@ func runChild(r *rep.Report, prop string, from, n int, totals map[string]int) (i
 					firstCase += " => ok"
 				}
 				r.Case(cs, sx.Sym("ok"), co.Label, co.NT)
+				if co.Composed != "" {
+					r.Case(sx.Sym(co.Composed), sx.Sym(co.ComposedObs), co.Label+"/composed", true)
+				}
 				for _, f := range co.Fails {
 					r.Fail(f.Key, f.What, cs, map[string]interface{}{"case_index": cur, "profile": co.Label})
 				}
